@@ -254,18 +254,26 @@ def run(tier="quick", seed=0):
         if bad:
             failures.append({"key": "roundtrip:" + str(sig)[:60], "description": bad,
                              "script": script_header() + f"sys.path.insert(0, '/verif')\nfrom pybound.c16 import scenario\nbad, sig = scenario({s})\nassert not bad, bad\n"})
-    for key, desc in path_checks():
+    def guarded(fn, key, empty):
+        # a probe that raises on this tree has found something: it is a failure of the probe's key, not a crash of the checker
+        try:
+            return fn()
+        except Exception as e:
+            import traceback
+            failures.append({"key": key + ":raised", "description": f"{fn.__name__} raised {type(e).__name__}: {e} :: {traceback.format_exc()[-400:]}", "script": ""})
+            return empty
+    for key, desc in guarded(path_checks, "leafnode", []):
         evals += 1
         failures.append({"key": key, "description": desc, "script": ""})
-    kf = auto_path_collision_probe()
+    kf = guarded(auto_path_collision_probe, "export:auto-path-collision", None)
     evals += 1
     if kf:
         failures.append({"key": "export:auto-path-collision", "description": kf, "script": ""})
-    z = zip_prefix_check()
+    z = guarded(zip_prefix_check, "zip:string-prefix", None)
     evals += 1
     if z:
         failures.append({"key": "zip:string-prefix", "description": z, "script": ""})
-    for key, msg in schema_string_check()[:3]:
+    for key, msg in guarded(schema_string_check, "schema-string", [])[:3]:
         failures.append({"key": "schema-string:" + key, "description": msg,
                          "script": script_header() + "sys.path.insert(0, '/verif')\nfrom pybound.c16 import schema_string_check\nr = schema_string_check()\nassert not r, r\n"})
     evals += 10
